@@ -463,7 +463,18 @@ def _table_guard(w, b):
     return False, 'is_formatable does not refuse calls with a named argument after a positional one'
 
 
-RULES = [r1_total_dispatch, r2_no_significant_child_dropped, r3_spelling, r4_order_and_disambiguation]
+def r5_statement_boundaries(w):
+    """= C04.R2: optional delimiters are paired and the body is converted in the mode the pair establishes.  Inside optional braces a
+    line break ends a statement; a body converted there in continued-code mode is split into several statements (tree change)."""
+    from rules import c04
+    rs = c04.r2_optional_delimiters_paired(w)
+    rs.rule = rs.rule.replace('C04.R2', 'C01.R5')
+    for f in rs.findings:
+        f.rule = rs.rule
+    return rs
+
+
+RULES = [r1_total_dispatch, r2_no_significant_child_dropped, r3_spelling, r4_order_and_disambiguation, r5_statement_boundaries]
 for _f in RULES:
     _f.needs = ('core',)
 MATRIX_RULES = [r2_no_significant_child_dropped]
